@@ -46,6 +46,41 @@ pub fn load_bases() -> Vec<Base> {
             bases.push(Base { name: rel, text });
         }
     }
+    // generated programs (the modelsim generator) and their single-token deletions
+    for i in 0..24u64 {
+        let mut rng = Rng::new(derive_seed(0xC11, 4242, i));
+        let knobs = lang::gen::GenKnobs::draw(&mut rng);
+        let p = lang::gen::gen_program(&mut rng, &knobs);
+        let text = lang::print::program(&p);
+        // deleting one token is what a dropped block in the middle of a line looks like
+        let toks: Vec<(usize, usize)> = {
+            let mut v = Vec::new();
+            let mut start: Option<usize> = None;
+            for (pos, ch) in text.char_indices() {
+                if ch.is_whitespace() {
+                    if let Some(s0) = start.take() {
+                        v.push((s0, pos));
+                    }
+                } else if start.is_none() {
+                    start = Some(pos);
+                }
+            }
+            v
+        };
+        if i % 2 == 1 && !toks.is_empty() {
+            for j in 0..3 {
+                let (a, b) = toks[rng.usize_below(toks.len())];
+                bases.push(Base {
+                    name: format!("generated/{i}/minus-token-{j}"),
+                    text: format!("{}{}", &text[..a], &text[b..]),
+                });
+            }
+        }
+        bases.push(Base {
+            name: format!("generated/{i}"),
+            text,
+        });
+    }
     for fam in load_families() {
         for (v, t) in fam.versions {
             bases.push(Base {
